@@ -252,6 +252,16 @@ impl Log {
         g.push(Event { id, t_us, ev });
         id
     }
+    /// Run `f` and log its event while holding the log lock, so that on a multi_thread runtime
+    /// the log order of such operations is their real order (`f` must not log).
+    pub fn push_with<R>(&self, f: impl FnOnce() -> (Ev, R)) -> (usize, R) {
+        let t_us = self.now_us();
+        let mut g = self.events.lock().unwrap();
+        let (ev, r) = f();
+        let id = g.len();
+        g.push(Event { id, t_us, ev });
+        (id, r)
+    }
     pub fn len(&self) -> usize {
         self.events.lock().unwrap().len()
     }
@@ -709,11 +719,13 @@ pub async fn perform(ctx: &Ctx, kind: &ActionKind) {
     let (m, a, act) = (ctx.machine_idx, ctx.app, ctx.act);
     match kind {
         ActionKind::Listen(ep) => {
-            let r = match ctx.machine.protocol::<Udp>() {
-                Some(udp) => fmt_err(&udp.listen(ctx.id, ep.endpoint(), ctx.machine.clone())),
-                None => "err:no-udp".into(),
-            };
-            ctx.log.push(Ev::Listen { machine: m, app: a, ep: *ep, result: r });
+            ctx.log.push_with(|| {
+                let r = match ctx.machine.protocol::<Udp>() {
+                    Some(udp) => fmt_err(&udp.listen(ctx.id, ep.endpoint(), ctx.machine.clone())),
+                    None => "err:no-udp".into(),
+                };
+                (Ev::Listen { machine: m, app: a, ep: *ep, result: r }, ())
+            });
         }
         ActionKind::Open { local, remote, listen, payloads } => {
             let Some(udp) = ctx.machine.protocol::<Udp>() else {
